@@ -274,9 +274,9 @@ func C16(tier string) int {
 	sc := newSysScenario()
 	n := len(sc.Ops())
 	if tier == "quick" {
-		runE1(rep, sc, explore.Config{Programs: sysQuickPrograms(sc)})
+		runE1(rep, sc, explore.Config{Programs: sysQuickPrograms(sc), SkipRejectedPrefix: true})
 	} else {
-		runE1(rep, sc, explore.Config{Programs: explore.Pairs(n)})
+		runE1(rep, sc, explore.Config{Programs: explore.Pairs(n), SkipRejectedPrefix: true})
 	}
 	return rep.Finish()
 }
